@@ -104,7 +104,7 @@ def main():
                    enable="every harness build passes -DASMJIT_VERIF (lib/vbuild.py COMMON flags)",
                    baseline_off_cmd="cmake -S /repo -B /verif/build/baseline_off -G Ninja -DCMAKE_BUILD_TYPE=RelWithDebInfo -DASMJIT_TEST=ON "
                                     "&& cmake --build /verif/build/baseline_off -j16 && ctest --test-dir /verif/build/baseline_off -j8 --timeout 900",
-                   source_commits=[],
+                   source_commits=["be3b79b"],
                    add_only=True),
         engines=[
             dict(name="sched", path="engine/sched.c", serves_properties=["C11"],
